@@ -14,10 +14,11 @@ for f in sorted(glob.glob(os.path.join(ROOT, "seeded", "*", "meta.json"))):
         n.get("strengthened", "") if (first is not None and not first) or n.get("strengthened") else ""))
 head = """## 10. Seeded changes
 
-One hundred and eighty-five changes written by independent sub-agents in seven waves (2 + 2 + 3 + 3 per property, then
+Two hundred and twenty-one changes written by independent sub-agents in eight waves (2 + 2 + 3 + 3 per property, then
 fifteen aimed at the areas that were driven last: the BETDAQ order path, files carrying several markets, line markets in
-live mode, wall-clock / hash-seed independence, the resting case of C05, and twice five with free choice on C02 C08 C12 C16
-C20 and on C03 C07 C10 C11 C15). Each agent saw only one property's text (wave 5:
+live mode, wall-clock / hash-seed independence, the resting case of C05, twice five with free choice on C02 C08 C12 C16
+C20 and on C03 C07 C10 C11 C15, and an eighth wave of two per property on eighteen properties, asked for corner clauses
+and second-order effects). Each agent saw only one property's text (wave 5:
 with a one-paragraph hint where in the code base to look) and a scratch worktree, nothing from `/verif`; each change
 compiles, passes the existing suite and is shown by its own `demo.py` to break the property (`confirmed`: demo passes
 without / fails with the patch and the suite passes with it, re-established by me in a scratch worktree).
@@ -26,7 +27,10 @@ of every check run, and under `history` what earlier versions of the machinery r
 each to `/repo` (or to a scratch worktree, `--wt`), runs the quick checks and undoes it. "Strengthened" says what the
 change taught: every miss of the first run was followed by a change to the machinery (never to the property), listed
 here. First-run detection (any check / the property's own check): waves 1+2 28 / 27 of 40, wave 3 35 / 33 of 60, wave 4
-35 / 32 of 60, wave 5 9 / 9 of 15, wave 6 5 / 5 of 5, wave 7 5 / 5 of 5. After strengthening, the final column is what the quick tier reports with the machinery
+35 / 32 of 60, wave 5 9 / 9 of 15, wave 6 5 / 5 of 5, wave 7 5 / 5 of 5, wave 8 29 / 29 of 36 (six of the seven misses
+are reported after strengthening; `C03_w8_2` is not: it needs an in-flight order completed by a path the framework does
+not have, see its note). The wave-8 entries were run with the checks importing flumine from the scratch worktree with the
+patch applied (`meta.mode = worktree`). After strengthening, the final column is what the quick tier reports with the machinery
 as committed; the few entries reported only by another property's check are marked in the notes.
 
 """
